@@ -5,7 +5,7 @@ import tlc
 from tlc import ToolError, VERIF, WORK
 
 HARNESS = os.path.join(VERIF, "harness")
-EVIDENCE = os.path.join(VERIF, "evidence")
+EVIDENCE = os.environ.get("VERIF_EVIDENCE_DIR") or os.path.join(VERIF, "evidence")
 REPLAYS = os.path.join(VERIF, "replays")
 FINDINGS = os.path.join(VERIF, "known-findings.txt")
 _built = set()
